@@ -179,7 +179,12 @@ def unparse_corr(ctx, progs):
 
 
 def gen_case(rng, i):
-    r = i % 4
+    r = i % 5
+    if r == 4:
+        # programs of type tdm: variable block, p-arrays by name, strings next to variables of the same name
+        from props import c15
+        text, info = c15.gen_tdm(rng, templates=False)
+        return text, "tdm"
     if r == 0:
         script, _ = gen.gen_script(rng, {"depth": 3, "array_args": True})
         tag = "plain"
@@ -223,7 +228,8 @@ def replay(ctx, data):
 
 def run(ctx):
     ctx.rule = ("random valid scripts (plain, templates with {parameters} in positional/keyword/scalar/array "
-                "slots, measured-register arguments, arrays passed as arguments, target/type options, loops); "
+                "slots, measured-register arguments, arrays passed as arguments, target/type options, loops; every fifth a "
+                "tdm script with a variable block, p-arrays by name and string arguments spelling variable names); "
                 "each is loaded, serialised and re-loaded for 3 (quick) or 5 (thorough) generations on the "
                 "implementation, the serialiser model is compared with the real dumps text, and the model's "
                 "LOADS with the real loads on the serialised text; non-trivial = at least one operation with "
@@ -234,7 +240,7 @@ def run(ctx):
     texts2 = []
     for i in range(n):
         script, tag = gen_case(ctx.rng, i)
-        text = gen.render(script, None)
+        text = script if isinstance(script, str) else gen.render(script, None)
         ctx.count(tag)
         ic, obj = core.impl_canon_loads(text)
         if ic[0] != "prog":
